@@ -122,6 +122,9 @@ func genJoin(g *Rand, slot int, realm string, fl seqFlavour) SOp {
 	if g.Chance(2, 3) {
 		op.Xattr = g.Pick("v1", "v2")
 	}
+	if fl == seqC20 {
+		op.Scribble = g.Chance(1, 3)
+	}
 	if fl == seqC12 {
 		op.Scribble = g.Chance(1, 3)
 		switch g.Intn(4) {
